@@ -33,7 +33,8 @@ class Tok:
         return "%s:%r@%d" % (self.kind, self.val, self.line)
 
 
-def tokenize(src):
+def tokenize(src, srcname=None):
+    SRC = srcname or globals()["SRC"]
     toks, i, n, line = [], 0, len(src), 1
     while i < n:
         c = src[i]
@@ -95,15 +96,17 @@ def tokenize(src):
 # ============================================================================ parser
 
 class Parser:
-    def __init__(self, toks):
+    def __init__(self, toks, srcname=None):
         self.t, self.i = toks, 0
+        self.src = srcname or SRC
+        self.enums = {}          # name -> [variants]  (field-less enums; used by t_prep)
 
     def peek(self, k=0):
         return self.t[min(self.i + k, len(self.t) - 1)]
 
     def err(self, msg):
         tk = self.peek()
-        raise TranslateError("%s:%d: %s (at %r)" % (SRC, tk.line, msg, tk.val))
+        raise TranslateError("%s:%d: %s (at %r)" % (self.src, tk.line, msg, tk.val))
 
     def isp(self, v, k=0):
         tk = self.peek(k)
@@ -178,6 +181,19 @@ class Parser:
                         self.eat()
                 self.eat()
                 structs[name] = fields
+            elif self.isid("enum"):
+                self.eat()
+                name = self.expect_id()
+                self.expect_p("{")
+                variants = []
+                while not self.isp("}"):
+                    variants.append(self.expect_id())
+                    if self.isp(","):
+                        self.eat()
+                    elif not self.isp("}"):
+                        self.err("only field-less enum variants are inside the subset")
+                self.eat()
+                self.enums[name] = variants
             elif self.isid("impl"):
                 self.eat()
                 hdr = []
@@ -361,8 +377,13 @@ class Parser:
         if self.isp("!"):
             self.eat()
             return ("not", self.unary())
-        if self.isp("&") or self.isp("*"):
+        if self.isp("*"):
             self.err("references / dereferences are outside the subset")
+        if self.isp("&"):
+            line = self.eat().line
+            if self.isid("mut"):
+                self.err("references / dereferences are outside the subset")
+            return ("ref", self.unary(), line)
         return self.postfix()
 
     def postfix(self):
@@ -433,8 +454,11 @@ class Parser:
                 fields = []
                 while not self.isp("}"):
                     f = self.expect_id()
-                    self.expect_p(":")
-                    fields.append((f, self.expr()))
+                    if self.isp(":"):
+                        self.eat()
+                        fields.append((f, self.expr()))
+                    else:                                  # shorthand `Self { x, .. }` = `x: x`
+                        fields.append((f, ("path", [f], tk.line)))
                     if self.isp(","):
                         self.eat()
                 self.eat()
@@ -444,6 +468,14 @@ class Parser:
             self.eat()
             saved = self.no_struct
             e = self.expr()
+            if self.isp(","):                              # tuple value (a, b, ..)
+                es = [e]
+                while self.isp(","):
+                    self.eat()
+                    if self.isp(")"):
+                        break
+                    es.append(self.expr())
+                e = ("tuple", es, tk.line)
             self.no_struct = saved
             self.expect_p(")")
             return e
@@ -489,6 +521,12 @@ class Parser:
         if self.isid("let"):
             self.eat()
             pat = self.pattern()
+            if self.isp("|"):
+                pats = [pat]
+                while self.isp("|"):
+                    self.eat()
+                    pats.append(self.pattern())
+                pat = ("or", pats)
             self.expect_p("=")
             c = ("iflet", pat, self.expr(no_struct=True))
         else:
@@ -555,6 +593,22 @@ class Parser:
 
     def pattern(self):
         tk = self.peek()
+        if tk.kind == "TMAC":
+            self.eat()
+            return ("tmac", tk.val, tk.line)
+        if tk.kind == "P" and tk.val == "(":
+            self.eat()
+            ps = []
+            while not self.isp(")"):
+                ps.append(self.pattern())
+                if self.isp(","):
+                    self.eat()
+                elif not self.isp(")"):
+                    self.err("unsupported pattern")
+            self.eat()
+            if len(ps) < 2:
+                self.err("unsupported pattern")
+            return ("tuple", ps)
         if tk.kind == "CHAR":
             self.eat()
             return ("char", tk.val)
@@ -575,7 +629,17 @@ class Parser:
                 p = self.pattern()
                 self.expect_p(")")
                 return ("some", p)
-            if self.isp("::") or self.isp("("):
+            if name in ("true", "false"):
+                return ("bool", name == "true")
+            if self.isp("::"):
+                path = [name]
+                while self.isp("::"):
+                    self.eat()
+                    path.append(self.expect_id())
+                if self.isp("(") or self.isp("{"):
+                    self.err("unsupported pattern")
+                return ("path", path, tk.line)
+            if self.isp("("):
                 self.err("unsupported pattern")
             return ("bind", name)
         self.err("unsupported pattern")
@@ -604,6 +668,10 @@ def cps(s):
 
 
 class Gen:
+    # vocabulary of the embedding (coq/model/ScanMonad.v); t_prep.py renders into coq/model/PrepMonad.v instead
+    RET, EARLY, UNREACH, LOOP, FUEL = "ret", "early", "m_unreachable", "m_loop", "loop_fuel"
+    SRC = SRC
+
     def __init__(self, repo):
         self.T = t_tokens.parse(repo)["T"]
         self.tks = set(t_tokens.parse(repo)["tks"])
@@ -619,7 +687,7 @@ class Gen:
         self.tmp = 0
 
     def fail(self, line, msg):
-        raise TranslateError("%s:%d: %s" % (SRC, line, msg))
+        raise TranslateError("%s:%d: %s" % (self.SRC, line, msg))
 
     def fresh(self, base="t"):
         self.tmp += 1
@@ -634,10 +702,9 @@ class Gen:
         return TYPES[t]
 
     # ------------------------------------------------------------------ helpers on monadic terms
-    @staticmethod
-    def as_m(kt):
+    def as_m(self, kt):
         k, t = kt
-        return t if k == "m" else "ret (%s)" % t
+        return t if k == "m" else "%s (%s)" % (self.RET, t)
 
     def bind(self, x, kt, body):
         """x <- kt ;; body   (let when kt is pure)"""
@@ -659,7 +726,7 @@ class Gen:
         k, t = f(names)
         if not binds:
             return (k, t)
-        body = t if k == "m" else "ret (%s)" % t
+        body = t if k == "m" else "%s (%s)" % (self.RET, t)
         for v, m in reversed(binds):
             body = "(%s <- %s ;; %s)" % (v, m, body)
         return ("m", body)
@@ -738,7 +805,7 @@ class Gen:
                 self.fail(e[2], "T![%s] unknown" % e[1])
             return ("p", "T_" + self.T[e[1]])
         if t == "unreachable":
-            return ("m", "m_unreachable")
+            return ("m", self.UNREACH)
         if t == "path":
             p = e[1]
             if len(p) == 2 and p[0] == "TokenKind":
@@ -759,7 +826,7 @@ class Gen:
             if kb == "p":
                 return self.lift([e[1]], ctx, lambda a: ("p", "(%s %s %s)" % (a[0], op, tb)))
             x = self.fresh("c")
-            short = "ret false" if t == "and" else "ret true"
+            short = "%s false" % self.RET if t == "and" else "%s true" % self.RET
             body = "(if %s then %s else %s)" % ((x, tb, short) if t == "and" else (x, short, tb))
             return ("m", self.bind(x, (ka, ta), body))
         if t == "cmp":
@@ -793,6 +860,8 @@ class Gen:
                     tg = "(let %s := %s in %s)" % (x, d, tg)
                 return ("p", "(%s && %s)" % (test, tg))
             return self.lift([e[1]], ctx, f)
+        if t == "ref":
+            self.fail(e[2], "references / dereferences are outside the subset")
         if t == "field":
             if e[1] == ("path", ["self"], e[1][2] if len(e[1]) > 2 else 0) or (e[1][0] == "path" and e[1][1] == ["self"]):
                 self.fail(0, "bare field access self.%s" % e[2])
@@ -974,7 +1043,7 @@ class Gen:
             body = "(match str_lookup %s %s with Some k => %s | None => %s end)" % (tbl, v, hit, default)
             return self.bind(v, (ks, ts), body)
         # general chain, built from the last arm backwards
-        k_next = "m_unreachable"
+        k_next = self.UNREACH
         for pats, guard, body, aline in reversed(arms):
             test, binds = self.pats_test(pats, v, aline)
             c2 = dict(ctx, locals=ctx["locals"] | {b[0] for b in binds})
@@ -1003,7 +1072,7 @@ class Gen:
     def tail_value(self, x, tail, ctx):
         """the term for `a block whose value is the pure term x` under [tail]"""
         if tail[0] == "value":
-            return "ret (%s)" % x
+            return "%s (%s)" % (self.RET, x)
         return tail[1]
 
     # ------------------------------------------------------------------ statements
@@ -1036,11 +1105,17 @@ class Gen:
             return vs[0], vs[0]
         return "(" + ", ".join(vs) + ")", "'(" + ", ".join(vs) + ")"
 
+    def assign_field(self, field, op, e, ctx, line):
+        """`self.<field> <op> e;` as a monadic term ("m", t), or None when it is not a field this embedding knows"""
+        if field == "error" and op == "=":
+            return self.lift([e], ctx, lambda a: ("m", "set_error (%s)" % a[0]))
+        return None
+
     def stmts(self, sts, i, ctx, tail):
         """statements sts[i:] as a term of type M _ ; tail = ("value",) | ("then", term)"""
         if i == len(sts):
             if tail[0] == "value":
-                return "ret tt"
+                return "%s tt" % self.RET
             return tail[1]
         s = sts[i]
         last = i == len(sts) - 1
@@ -1051,9 +1126,10 @@ class Gen:
             return self.bind(self.var(x), self.E(e, ctx), self.stmts(sts, i + 1, c2, tail))
         if k == "assign":
             _, lhs, op, e, line = s
-            if lhs[0] == "field" and self.is_self(lhs[1]) and lhs[2] == "error" and op == "=":
-                kt = self.lift([e], ctx, lambda a: ("m", "set_error (%s)" % a[0]))
-                return "(%s ;;; %s)" % (kt[1], self.stmts(sts, i + 1, ctx, tail))
+            if lhs[0] == "field" and self.is_self(lhs[1]):
+                kt = self.assign_field(lhs[2], op, e, ctx, line)
+                if kt is not None:
+                    return "(%s ;;; %s)" % (kt[1], self.stmts(sts, i + 1, ctx, tail))
             if lhs[0] != "path" or len(lhs[1]) != 1 or lhs[1][0] not in ctx["muts"]:
                 self.fail(line, "assignment to something that is not a `let mut` local")
             x = lhs[1][0]
@@ -1066,11 +1142,11 @@ class Gen:
             if not ctx["can_return"]:
                 self.fail(line, "`return` in a function whose result is not TokenKind")
             x = self.fresh("r")
-            return self.bind(x, self.E(e, ctx), "early %s" % x)
+            return self.bind(x, self.E(e, ctx), "%s %s" % (self.EARLY, x))
         if k == "break":
             if not last or ctx.get("loop") is None:
                 self.fail(s[1], "`break` outside the tail position of a loop body")
-            return "ret (Break %s)" % self.tup(ctx["loop"])[0]
+            return "%s (Break %s)" % (self.RET, self.tup(ctx["loop"])[0])
         if k in ("loop", "while"):
             body = s[1] if k == "loop" else s[2]
             line = s[-1]
@@ -1079,13 +1155,13 @@ class Gen:
             vs = sorted(self.assigned(body, set()) & ctx["muts"])
             val, pat = self.tup(vs)
             lctx = dict(ctx, loop=vs)
-            cont = "ret (Continue %s)" % val
+            cont = "%s (Continue %s)" % (self.RET, val)
             inner = self.stmts(body[1], 0, lctx, ("then", cont))
             if k == "while":
                 c = self.fresh("c")
-                inner = self.bind(c, self.E(s[1], ctx), "(if %s then %s else ret (Break %s))" % (c, inner, val))
+                inner = self.bind(c, self.E(s[1], ctx), "(if %s then %s else %s (Break %s))" % (c, inner, self.RET, val))
             n = self.fresh("n")
-            loop = "(%s <- loop_fuel ;; m_loop %s (fun %s => %s) %s)" % (n, n, pat, inner, val)
+            loop = "(%s <- %s ;; %s %s (fun %s => %s) %s)" % (n, self.FUEL, self.LOOP, n, pat, inner, val)
             return "(%s <- %s ;; %s)" % (pat, loop, self.stmts(sts, i + 1, ctx, tail))
         if k == "expr":
             _, e, semi, line = s
@@ -1099,13 +1175,13 @@ class Gen:
                     self.fail(line, "`break` in a statement that is not the last of the loop body")
                 vs = sorted(self.assigned(e, set()) & ctx["muts"])
                 val, pat = self.tup(vs)
-                t = self.branchy(e, ctx, ("then", "ret %s" % val))
+                t = self.branchy(e, ctx, ("then", "%s %s" % (self.RET, val)))
                 return "(%s <- %s ;; %s)" % (pat, t, self.stmts(sts, i + 1, ctx, tail))
             if e[0] == "block":
                 self.fail(line, "nested blocks are outside the subset")
             kt = self.E(e, ctx)
-            if kt[1] == "m_unreachable":
-                return "m_unreachable"
+            if kt[1] == self.UNREACH:
+                return self.UNREACH
             if kt[0] == "p":
                 if last and tail[0] == "then":
                     return tail[1]
@@ -1115,7 +1191,7 @@ class Gen:
 
     def branchy(self, e, ctx, tail):
         """an if / match STATEMENT whose branches end with [tail]"""
-        tl = tail if tail[0] == "then" else ("then", "ret tt")
+        tl = tail if tail[0] == "then" else ("then", "%s tt" % self.RET)
         if e[0] == "match":
             return self.match_m(e, ctx, tl)
         c, a, b, line = e[1], e[2], e[3], e[4]
